@@ -725,8 +725,13 @@ func csTour(run *evid.Run, g *csGraph, workers int, sample func(*csEdge) bool) c
 // csWalk drives random API calls against a peer that is a small conforming
 // server choosing its replies at random, without consulting the specification,
 // and returns the recorded events.
-func csWalk(lmtp bool, rng *rand.Rand, steps int) []map[string]interface{} {
-	c := newCsConn(lmtp, time.Second)
+//
+// script: when not nil the calls and decisions of an earlier walk are executed
+// again instead of new ones being drawn (confirmation of a rejected walk on a
+// fresh connection with generous time-outs).
+func csWalk(lmtp bool, rng *rand.Rand, steps int, script []*csLabel, sub time.Duration) ([]map[string]interface{}, []*csLabel) {
+	var labels []*csLabel
+	c := newCsConn(lmtp, sub)
 	defer c.discard()
 	var evs []map[string]interface{}
 	evs = append(evs, map[string]interface{}{"ev": "reset", "lmtp": lmtp})
@@ -739,114 +744,128 @@ func csWalk(lmtp bool, rng *rand.Rand, steps int) []map[string]interface{} {
 	pick := func(xs ...string) string { return xs[rng.Intn(len(xs))] }
 	for i := 0; i < steps; i++ {
 		l := &csLabel{Dec: csDec{G: "-", E: "-", Es: []string{}, F: "-", C: "-"}, Args: []string{}}
+		if script != nil {
+			if i >= len(script) {
+				break
+			}
+			cp := *script[i]
+			l = &cp
+		}
+		labels = append(labels, func() *csLabel { cp := *l; return &cp }())
 		var calls []string
-		switch {
-		case dwOpen:
-			calls = []string{"WClose", "WClose", "WClose", "Close"}
-		case stuck && !hasWriter:
-			calls = []string{"Close"}
-		case stuck:
-			calls = []string{"WClose", "Close"}
-		default:
-			calls = []string{"Noop", "Verify", "Reset", "Quit", "Hello", "Extension", "Mail", "Mail", "SendMail", "Close", "BadArg"}
-			if greeted {
-				calls = append(calls, "Rcpt", "Rcpt", "Rcpt", "Data", "Data", "LMTPData")
+		if script == nil {
+			switch {
+			case dwOpen:
+				calls = []string{"WClose", "WClose", "WClose", "Close"}
+			case stuck && !hasWriter:
+				calls = []string{"Close"}
+			case stuck:
+				calls = []string{"WClose", "Close"}
+			default:
+				calls = []string{"Noop", "Verify", "Reset", "Quit", "Hello", "Extension", "Mail", "Mail", "SendMail", "Close", "BadArg"}
+				if greeted {
+					calls = append(calls, "Rcpt", "Rcpt", "Rcpt", "Data", "Data", "LMTPData")
+				}
+				if hasWriter {
+					calls = append(calls, "WClose")
+				}
 			}
-			if hasWriter {
-				calls = append(calls, "WClose")
-			}
-		}
-		l.Call = calls[rng.Intn(len(calls))]
-		if l.Call == "Close" && rng.Intn(4) != 0 && !(stuck && !hasWriter) {
-			l.Call = "Noop"
-			if dwOpen || stuck {
-				l.Call = "WClose"
-			}
-		}
-		if (l.Call == "Mail" || l.Call == "SendMail") && txn {
-			l.Call = "Rcpt" // discipline: no nested MAIL
-			if !greeted {
+			l.Call = calls[rng.Intn(len(calls))]
+			if l.Call == "Close" && rng.Intn(4) != 0 && !(stuck && !hasWriter) {
 				l.Call = "Noop"
-			}
-		}
-		switch l.Call {
-		case "BadArg":
-			l.Call = pick("Hello", "Verify", "Mail", "Rcpt")
-			l.Args = []string{"crlf"}
-		case "Hello":
-			l.Args = []string{"custom"}
-		case "Extension":
-			l.Args = []string{pick("8BITMIME", "SIZE", "SMTPUTF8")}
-		case "Mail":
-			l.Args = []string{pick("utf8", "ascii"), pick("size", "nosize")}
-		case "Rcpt":
-			l.Args = []string{pick("a", "b", "c", "d")}
-		case "SendMail":
-			l.Args = [][]string{{"a"}, {"a", "b"}}[rng.Intn(2)]
-			l.Cs = []string{pick("250", "250", "250", "550")}
-			for range l.Args {
-				l.Cs = append(l.Cs, pick("250", "250", "250", "550"))
-			}
-			l.Cs = append(l.Cs, pick("354", "354", "354", "554"))
-			n := 1
-			if lmtp {
-				n = len(l.Args)
-			}
-			for j := 0; j < n; j++ {
-				if lmtp {
-					l.V = append(l.V, pick("250", "250", "550", "421"))
-				} else {
-					l.V = append(l.V, pick("250", "554"))
+				if dwOpen || stuck {
+					l.Call = "WClose"
 				}
 			}
-			if rng.Intn(12) == 0 {
-				l.V = []string{"stall"}
-			}
-		}
-		// decisions: chosen for every class of line the call might write
-		l.Dec.G = pick("220", "220", "220", "554")
-		l.Dec.E = pick("250", "250", "250", "250", "500", "502", "550")
-		l.Dec.Es = sets[rng.Intn(len(sets))]
-		l.Dec.F = pick("250", "250", "550")
-		switch l.Call {
-		case "Noop":
-			l.Dec.C = pick("250", "250", "502")
-		case "Verify":
-			l.Dec.C = pick("250", "550")
-		case "Reset":
-			l.Dec.C = pick("250", "250", "250", "502")
-		case "Quit":
-			l.Dec.C = pick("221", "221", "502")
-		case "Mail":
-			l.Dec.C = pick("250", "250", "250", "451", "550")
-		case "Rcpt":
-			if !txn {
-				l.Dec.C = "503"
-			} else {
-				l.Dec.C = pick("250", "250", "251", "550")
-			}
-		case "Data", "LMTPData":
-			if len(list) == 0 {
-				l.Dec.C = "503"
-			} else {
-				l.Dec.C = pick("354", "354", "354", "554")
-			}
-		}
-		if l.Call == "WClose" && dwOpen {
-			n := 1
-			if lmtp {
-				n = len(list)
-			}
-			for j := 0; j < n; j++ {
-				if lmtp {
-					l.V = append(l.V, pick("250", "250", "550", "421"))
-				} else {
-					l.V = append(l.V, pick("250", "554"))
+			if (l.Call == "Mail" || l.Call == "SendMail") && txn {
+				l.Call = "Rcpt" // discipline: no nested MAIL
+				if !greeted {
+					l.Call = "Noop"
 				}
 			}
-			if rng.Intn(12) == 0 {
-				l.V = []string{"stall"}
+			switch l.Call {
+			case "BadArg":
+				l.Call = pick("Hello", "Verify", "Mail", "Rcpt")
+				l.Args = []string{"crlf"}
+			case "Hello":
+				l.Args = []string{"custom"}
+			case "Extension":
+				l.Args = []string{pick("8BITMIME", "SIZE", "SMTPUTF8")}
+			case "Mail":
+				l.Args = []string{pick("utf8", "ascii"), pick("size", "nosize")}
+			case "Rcpt":
+				l.Args = []string{pick("a", "b", "c", "d")}
+			case "SendMail":
+				l.Args = [][]string{{"a"}, {"a", "b"}}[rng.Intn(2)]
+				l.Cs = []string{pick("250", "250", "250", "550")}
+				for range l.Args {
+					l.Cs = append(l.Cs, pick("250", "250", "250", "550"))
+				}
+				l.Cs = append(l.Cs, pick("354", "354", "354", "554"))
+				n := 1
+				if lmtp {
+					n = len(l.Args)
+				}
+				for j := 0; j < n; j++ {
+					if lmtp {
+						l.V = append(l.V, pick("250", "250", "550", "421"))
+					} else {
+						l.V = append(l.V, pick("250", "554"))
+					}
+				}
+				if rng.Intn(12) == 0 {
+					l.V = []string{"stall"}
+				}
 			}
+			// decisions: chosen for every class of line the call might write
+			l.Dec.G = pick("220", "220", "220", "554")
+			l.Dec.E = pick("250", "250", "250", "250", "500", "502", "550")
+			l.Dec.Es = sets[rng.Intn(len(sets))]
+			l.Dec.F = pick("250", "250", "550")
+			switch l.Call {
+			case "Noop":
+				l.Dec.C = pick("250", "250", "502")
+			case "Verify":
+				l.Dec.C = pick("250", "550")
+			case "Reset":
+				l.Dec.C = pick("250", "250", "250", "502")
+			case "Quit":
+				l.Dec.C = pick("221", "221", "502")
+			case "Mail":
+				l.Dec.C = pick("250", "250", "250", "451", "550")
+			case "Rcpt":
+				if !txn {
+					l.Dec.C = "503"
+				} else {
+					l.Dec.C = pick("250", "250", "251", "550")
+				}
+			case "Data", "LMTPData":
+				if len(list) == 0 {
+					l.Dec.C = "503"
+				} else {
+					l.Dec.C = pick("354", "354", "354", "554")
+				}
+			}
+			if l.Call == "WClose" && dwOpen {
+				n := 1
+				if lmtp {
+					n = len(list)
+				}
+				for j := 0; j < n; j++ {
+					if lmtp {
+						l.V = append(l.V, pick("250", "250", "550", "421"))
+					} else {
+						l.V = append(l.V, pick("250", "554"))
+					}
+				}
+				if rng.Intn(12) == 0 {
+					l.V = []string{"stall"}
+				}
+			}
+		}
+		if script == nil {
+			cp := *l
+			labels[len(labels)-1] = &cp
 		}
 		greetingPending := !greeted && !closed
 		c.fake.set(l.Dec, l.V, l.Cs)
@@ -865,7 +884,7 @@ func csWalk(lmtp bool, rng *rand.Rand, steps int) []map[string]interface{} {
 		res, returned := c.call(l)
 		if !returned {
 			evs = append(evs, map[string]interface{}{"ev": "hang", "call": l.Call})
-			return evs
+			return evs, labels
 		}
 		got, _ := c.fake.taken()
 		lines := [][]string{}
@@ -930,11 +949,11 @@ func csWalk(lmtp bool, rng *rand.Rand, steps int) []map[string]interface{} {
 		}
 		evs = append(evs, map[string]interface{}{"ev": "step", "call": l.Call, "args": l.Args, "lines": lines, "res": res,
 			"cbs": cbs, "g": g, "h": h, "ext": ext, "name": name, "rcpts": rcpts, "greeted": sentGreeting, "gcode": used.G})
-		if closed && rng.Intn(3) == 0 {
-			return evs
+		if closed && script == nil && rng.Intn(3) == 0 {
+			return evs, labels
 		}
 	}
-	return evs
+	return evs, labels
 }
 
 func clientSessionEngine(run *evid.Run, tier string) map[string]interface{} {
@@ -996,9 +1015,11 @@ func clientSessionEngine(run *evid.Run, tier string) map[string]interface{} {
 	var nd strings.Builder
 	nev := 0
 	var walks [][]map[string]interface{}
+	var scripts [][]*csLabel
 	for i := 0; i < nwalks; i++ {
-		evs := csWalk(i%2 == 1, rng, 25)
+		evs, labels := csWalk(i%2 == 1, rng, 25, nil, time.Second)
 		walks = append(walks, evs)
+		scripts = append(scripts, labels)
 		for _, e := range evs {
 			b, _ := json.Marshal(e)
 			nd.Write(b)
@@ -1006,7 +1027,7 @@ func clientSessionEngine(run *evid.Run, tier string) map[string]interface{} {
 			nev++
 		}
 	}
-	rejected := csValidateWalks(run, walks, nd.String(), nev)
+	rejected := csValidateWalks(run, walks, scripts, nd.String(), nev)
 	cov["clientsession_states"] = states
 	cov["clientsession_transitions"] = trans
 	cov["clientsession_edges_replayed"] = stats[0].edges + stats[1].edges
@@ -1023,7 +1044,7 @@ func clientSessionEngine(run *evid.Run, tier string) map[string]interface{} {
 
 // csValidateWalks lets TLC explain the recorded walks; a walk whose events are
 // not all explained is reported with the first unexplained event.
-func csValidateWalks(run *evid.Run, walks [][]map[string]interface{}, nd string, nev int) int {
+func csValidateWalks(run *evid.Run, walks [][]map[string]interface{}, scripts [][]*csLabel, nd string, nev int) int {
 	rejected := 0
 	// all walks of a flavour at once first; on rejection, each walk alone
 	allOK := true
@@ -1051,16 +1072,28 @@ func csValidateWalks(run *evid.Run, walks [][]map[string]interface{}, nd string,
 	if allOK {
 		return 0
 	}
-	for _, w := range walks {
-		var sb strings.Builder
-		for _, e := range w {
-			b, _ := json.Marshal(e)
-			sb.Write(b)
-			sb.WriteByte('\n')
+	for wi, w := range walks {
+		enc := func(w []map[string]interface{}) string {
+			var sb strings.Builder
+			for _, e := range w {
+				b, _ := json.Marshal(e)
+				sb.Write(b)
+				sb.WriteByte('\n')
+			}
+			return sb.String()
 		}
-		ok, hwm := csValidate(w[0]["lmtp"] == true, sb.String(), len(w))
+		ok, hwm := csValidate(w[0]["lmtp"] == true, enc(w), len(w))
 		if ok {
 			continue
+		}
+		// the same calls and decisions again on a fresh connection with generous
+		// time-outs: only a rejection that repeats is reported
+		w2, _ := csWalk(w[0]["lmtp"] == true, nil, len(scripts[wi]), scripts[wi], 4*time.Second)
+		if ok2, hwm2 := csValidate(w[0]["lmtp"] == true, enc(w2), len(w2)); ok2 {
+			fmt.Printf("NOTE clientsession: a rejected walk was accepted when repeated and is not reported\n")
+			continue
+		} else {
+			w, hwm = w2, hwm2
 		}
 		rejected++
 		if rejected > 6 {
